@@ -197,3 +197,109 @@ Example c11_nonvacuous :
   process_bulk [[97;13]; [10;10;98]; []; [99]; [100;10;101]]%N = [[97;13]; []; [98;99;100]; [101]]%N
   /\ serve_bulk [Chunk [97;10;98]%N; ReadErr; Chunk [10]%N] = ([[97]]%N, 400).
 Proof. split; vm_compute; reflexivity. Qed.
+
+(* request headers and meta templates (harness which = 12 / 13).  ServeHTTP hands the whole request to auth and to the
+   meta templates before serveBulk runs; [route_h render c tm h] is ServeHTTP on a request h = (request line and body,
+   header lines, extra query, framing) of a plugin configured with c and the templates tm, [render] being ANY function
+   that turns a template, the login, the client address and the request into text.  Whatever they are, a request that
+   reaches processBulk hands over - as the data of its In calls - exactly what serve_bulk makes of its reads ... *)
+Theorem c11_http_headers_and_meta_do_not_matter :
+  forall (render : bytes -> bytes -> bytes -> hreq -> bytes) (c : rcfg) (tm : tmpls) (h : hreq),
+    ingests c (h_req h) = true ->
+    (map fst (fst (fst (route_h render c tm h))), snd (fst (route_h render c tm h))) = serve_bulk (q_reads (h_req h)).
+Proof. exact route_h_ingests. Qed.
+Print Assumptions c11_http_headers_and_meta_do_not_matter.
+
+(* ... two requests with the same request line and body are treated alike whatever their header sets, queries, framings
+   and the template sets / renderers / meta flags of the plugins they are sent to ... *)
+Theorem c11_http_headers_and_meta_independent :
+  forall (render render' : bytes -> bytes -> bytes -> hreq -> bytes) (c : rcfg) (m' : bool) (tm tm' : tmpls) (q : rreq)
+         (hs hs' : headers) (xq xq' : bytes) (fl fl' : Z),
+    let c' := mkCfg (c_mode c) (c_strat c) (c_hdr c) (c_secrets c) (c_origins c) m' in
+    let a := route_h render c tm (mkHReq q hs xq fl) in
+    let b := route_h render' c' tm' (mkHReq q hs' xq' fl') in
+    map fst (fst (fst a)) = map fst (fst (fst b)) /\ snd (fst a) = snd (fst b) /\ snd a = snd b.
+Proof. exact route_h_independent. Qed.
+Print Assumptions c11_http_headers_and_meta_independent.
+
+(* ... a 200 comes after every line of the body was handed over, each with one meta value per configured template ... *)
+Theorem c11_http_headers_ok_after_all_in :
+  forall (render : bytes -> bytes -> bytes -> hreq -> bytes) (c : rcfg) (tm : tmpls) (h : hreq) calls st cl,
+    route_h render c tm h = (calls, st, cl) -> ingests c (h_req h) = true -> st = 200 ->
+    no_err (q_reads (h_req h)) = true /\
+    map fst calls = split_body (concat (chunks_of (q_reads (h_req h)))) /\
+    Forall (fun cm => map fst (snd cm) = map fst tm) calls.
+Proof. exact route_h_200. Qed.
+Print Assumptions c11_http_headers_ok_after_all_in.
+
+(* ... and no header or template makes a request that is not ingested hand over anything, or gets a request without a
+   configured secret a 200 *)
+Theorem c11_http_headers_nothing_else_is_ingested :
+  forall (render : bytes -> bytes -> bytes -> hreq -> bytes) (c : rcfg) (tm : tmpls) (h : hreq),
+    (ingests c (h_req h) = false -> fst (fst (route_h render c tm h)) = []) /\
+    (authorised c (h_req h) = false ->
+       fst (fst (route_h render c tm h)) = [] /\
+       (q_method (h_req h) <> 2 -> snd (fst (route_h render c tm h)) <> 200)).
+Proof. exact (fun render c tm h => conj (route_h_not_ingests render c tm h) (route_h_unauthorised render c tm h)). Qed.
+Print Assumptions c11_http_headers_nothing_else_is_ingested.
+
+(* what a verdict Agree / Differ of the routed histories with headers and templates (which = 12) means for the real
+   plugin: under the header set and the template set of the case every ingested request delivered the newline split of
+   its body when answered 200 and was answered 200 unless a read failed; every other request handed over nothing *)
+Theorem c11_http_headers_verdict_sound :
+  forall case obs,
+    (c11_hroute_run case obs = Agree \/ exists m, c11_hroute_run case obs = Differ m) ->
+    exists cfg c tms tm reqs outs,
+      case = SL [cfg; tms; SL reqs] /\ cfg_of_sx cfg = Some c /\ tmpls_of_sx tms = Some tm /\ obs = SL outs /\
+      Forall2 (fun r o =>
+        exists rq hs xq fl q reads rds evs st x y z,
+          r = SL [rq; hs; SB xq; SZ fl] /\
+          req_of_sx rq = Some (q, reads) /\ as_list rd_of_sx reads = Some rds /\ q_reads q = rds /\
+          o = SL [SL evs; SZ st; x; y; z] /\
+          (ingests c q = true ->
+             (st = 200 -> no_err rds = true /\ evs = map SB (split_body (concat (chunks_of rds)))) /\
+             (st <> 200 -> no_err rds = false)) /\
+          (ingests c q = false ->
+             evs = [] /\ (authorised c q = false -> q_method q <> 2 -> st <> 200))) reqs outs.
+Proof. exact hroute_verdict_sound. Qed.
+Print Assumptions c11_http_headers_verdict_sound.
+
+(* the same over the plugin's own listener (which = 13): whatever header lines, target, framing oddity and template set,
+   every request was answered 200 and delivered exactly the newline split of what its client wrote *)
+Theorem c11_http_headers_wire_verdict_sound :
+  forall case obs,
+    (c11_hwire_run case obs = Agree \/ exists m, c11_hwire_run case obs = Differ m) ->
+    exists cfg tms tm reqs outs,
+      case = SL [SL cfg; tms; SL reqs] /\ tmpls_of_sx tms = Some tm /\ obs = SL outs /\
+      Forall2 (fun r o =>
+        exists gz piece ws hs target odd rds evs x,
+          r = SL [SZ gz; SZ piece; SL ws; hs; SB target; SZ odd] /\ as_list rd_of_sx (SL ws) = Some rds /\
+          no_err rds = true /\ o = SL [SL evs; SZ 200; x] /\
+          evs = map SB (split_body (concat (chunks_of rds)))) reqs outs.
+Proof. exact hwire_verdict_sound. Qed.
+Print Assumptions c11_http_headers_wire_verdict_sound.
+
+(* non-vacuity: bearer auth, two templates, a renderer that copies the Content-Type value into the meta; a form-encoded
+   POST with accepted credentials hands over both lines of its body, each with both meta keys; the judge of which = 12
+   calls an answer "200, no event" for it (what a handler that let net/http parse the form would produce) a violation *)
+Example c11_headers_nonvacuous :
+  let c := mkCfg 0 2 [88;45;75]%N [([110]%N, [116]%N)] [] true in
+  let ip := mkIp [] false in
+  let q := mkReq 0 P_ROOT [88;45;75]%N (CBearer [116]%N) [] ip ip ip ip [] false [Chunk [97;61;49;10;98]%N] in
+  let ct := ([67;84]%N, [102;111;114;109]%N) in
+  let render := fun (t login addr : bytes) (h : hreq) => t ++ login ++ concat (map snd (h_hdrs h)) in
+  let tm := [([107;49]%N, [123]%N); ([107;50]%N, [125]%N)] in
+  route_h render c tm (mkHReq q [ct] [] 1) =
+    ([([97;61;49]%N, [([107;49]%N, [123;110;102;111;114;109]%N); ([107;50]%N, [125;110;102;111;114;109]%N)]);
+      ([98]%N,       [([107;49]%N, [123;110;102;111;114;109]%N); ([107;50]%N, [125;110;102;111;114;109]%N)])], 200, 1) /\
+  ingests c (h_req (mkHReq q [ct] [] 1)) = true /\
+  (let case := SL [SL [SZ 0; SZ 0; SB []; SL []; SL []; SZ 0; SZ 1];
+                   SL [SL [SB [107]%N; SB [123]%N]];
+                   SL [SL [SL [SZ 0; SB P_ROOT; SB []; SZ 0; SB [];
+                               SL [SL [SB []; SZ 0]; SL [SB []; SZ 0]; SL [SB []; SZ 0]; SL [SB []; SZ 0]];
+                               SB []; SZ 0; SL [SB [97;61;49;10;98]%N]];
+                           SL [SL [SB [67;84]%N; SB [102;111;114;109]%N]]; SB []; SZ 0]]] in
+   c11_hroute_run case (SL [SL [SL [SB [97;61;49]%N; SB [98]%N]; SZ 200; SZ 1; SB S_STAR; SZ 1]]) = Agree /\
+   c11_hroute_run case (SL [SL [SL []; SZ 200; SZ 1; SB S_STAR; SZ 0]]) =
+     Violates (SL [SL [SL [SB [97;61;49]%N; SB [98]%N]; SZ 200; SZ 1; SB S_STAR; SZ 1]])).
+Proof. vm_compute. repeat split; reflexivity. Qed.
